@@ -133,6 +133,12 @@ func seqTok(g *gocql.VerifStreams, w string) (string, bool) {
 			return "", false
 		}
 		return doClear(g, id), true
+	case strings.HasPrefix(w, "n"): // n<k> = Clear(-k), k >= 1: a NEGATIVE argument (seq lines only; excluded from the spec monitor)
+		k, err := strconv.Atoi(w[1:])
+		if err != nil || k < 1 {
+			return "", false
+		}
+		return doClear(g, -k), true
 	case strings.HasPrefix(w, "O"):
 		v, ok := presetValue(g, w)
 		if !ok {
@@ -207,9 +213,14 @@ func runSmon(proto int, toks []string) (res string) {
 				return "n/a"
 			}
 		}
+		if strings.HasPrefix(w, "n") { // Clear of a negative id: excluded case (proposed finding KF-C08-3)
+			return "n/a"
+		}
 	}
 	g := gocql.VerifStreamsNew(proto)
-	capN := g.NumStreams()
+	// the capacity is the one the PROPERTY prescribes for the protocol version (1..127 for v1-2, 1..32767 for
+	// v3+), not the one the code under test chose
+	capN := capOf(proto)
 	held := make([]bool, capN)
 	cnt := 0
 	k := 0
@@ -326,6 +337,7 @@ type lockstep struct {
 	g      *gocql.VerifStreams
 	k      int
 	nw     int // number of bitset words
+	capN   int // capacity the property prescribes for the protocol version (NOT taken from the code under test)
 	resume []chan struct{}
 	events chan event
 	gids   map[uint64]int // goroutine id -> thread index
@@ -352,6 +364,8 @@ type lockstep struct {
 	curClear []int    // id of the Clear call the thread is in (-1 = none)
 	pendAcq  []int    // id whose bit the thread's GetStream has set, call not yet returned (-1 = none)
 	negPanic []int    // ids of the Clear calls that panicked 'negative' during the current scheduling decision
+	lpAcq    []int    // linearization monitor: id whose bit the thread's current GetStream call has set (-1 = none yet)
+	lpRel    []bool   // linearization monitor: the thread's current Clear call has cleared the bit of its id
 	c0       bool     // excluded case 1 has happened: Clear(0) called
 	excl     bool     // excluded case 1 or 2 (a Clear cleared the bit of an id whose GetStream had not returned yet)
 	nRogue   int
@@ -466,7 +480,7 @@ func (ls *lockstep) thread(t int, script []string) {
 				if ls.protocol && ls.held[id] {
 					ls.monitor += fmt.Sprintf(" MONITOR:duplicate-id-%d", id)
 				}
-				if !ls.c0 && (id < 1 || id >= ls.g.NumStreams()) {
+				if !ls.c0 && (id < 1 || id >= ls.capN) {
 					ls.monitor += fmt.Sprintf(" MONITOR:id-out-of-range-%d", id)
 				}
 				ls.held[id] = true
@@ -512,7 +526,7 @@ func (ls *lockstep) clear(t, id int) string {
 		ls.rel[id]++                          // the bit was cleared and the counter decremented before the panic
 		ls.negPanic = append(ls.negPanic, id) // judged by the scheduler, after the bookkeeping of this decision
 	case "crash:index":
-		if id < ls.g.NumStreams() {
+		if id < ls.capN {
 			ls.monitor += fmt.Sprintf(" MONITOR:index-panic-in-Clear-%d", id)
 		}
 	default:
@@ -554,6 +568,63 @@ func bitsOf(ws []uint64, f func(id int)) {
 			}
 		}
 	}
+}
+
+// linearization monitor (theorems C08_linearizable_partial, C08_lp_answers; no client protocol, Clear(0) excluded),
+// evaluated on the bitset before / after every scheduling decision in which at most one call returned: the only
+// bits a decision of thread t may change are ONE bit set while t is inside a GetStream call that has not set a
+// bit yet (the linearization point of that call: it must then return exactly that id) and the bit of x cleared
+// while t is inside Clear(x) (once: that call must then return true); a GetStream that returns an id / a Clear
+// that returns true has passed its linearization point; a Clear(x) that returns false has not cleared anything and
+// the bit of x was clear in front of the decision that made it return.
+func (ls *lockstep) linearization(t int, wasGet bool, wasClear int, before, after []uint64, rets []string) {
+	if ls.c0 || len(rets) > 1 || len(before) != len(after) {
+		ls.lpAcq[t], ls.lpRel[t] = -1, false
+		return
+	}
+	set, clr := make([]uint64, len(after)), make([]uint64, len(after))
+	for w := range after {
+		set[w], clr[w] = after[w]&^before[w], before[w]&^after[w]
+	}
+	bitsOf(set, func(id int) {
+		if !wasGet || ls.lpAcq[t] >= 0 {
+			ls.monitor += fmt.Sprintf(" MONITOR:bit-of-id-%d-set-outside-the-linearization-point-of-a-GetStream", id)
+		} else {
+			ls.lpAcq[t] = id
+		}
+	})
+	bitsOf(clr, func(id int) {
+		if wasClear != id || ls.lpRel[t] {
+			ls.monitor += fmt.Sprintf(" MONITOR:bit-of-id-%d-cleared-outside-the-linearization-point-of-a-Clear-of-it", id)
+		} else {
+			ls.lpRel[t] = true
+		}
+	})
+	if len(rets) == 0 {
+		return
+	}
+	r := rets[0]
+	switch {
+	case wasGet && strings.HasSuffix(r, ":t"):
+		if id, _ := strconv.Atoi(strings.TrimSuffix(r, ":t")); id != ls.lpAcq[t] {
+			ls.monitor += fmt.Sprintf(" MONITOR:GetStream-returned-%d-but-its-linearization-point-set-the-bit-of-%d", id, ls.lpAcq[t])
+		}
+	case wasGet:
+		if ls.lpAcq[t] >= 0 {
+			ls.monitor += fmt.Sprintf(" MONITOR:GetStream-answered-%s-after-setting-the-bit-of-%d", r, ls.lpAcq[t])
+		}
+	case wasClear >= 0 && (r == "T" || r == "crash:negative"):
+		if !ls.lpRel[t] {
+			ls.monitor += fmt.Sprintf(" MONITOR:Clear-%d-answered-%s-without-having-cleared-its-bit", wasClear, r)
+		}
+	case wasClear >= 0 && r == "F":
+		if ls.lpRel[t] {
+			ls.monitor += fmt.Sprintf(" MONITOR:Clear-%d-answered-F-after-having-cleared-its-bit", wasClear)
+		} else if w := wasClear / 64; w < len(before) && before[w]>>(63-uint(wasClear%64))&1 == 1 {
+			ls.monitor += fmt.Sprintf(" MONITOR:Clear-%d-answered-F-while-its-bit-was-set", wasClear)
+		}
+	}
+	ls.lpAcq[t], ls.lpRel[t] = -1, false
 }
 
 // step: one scheduling decision, thread t runs until its next hand-over; returns the observation
@@ -608,6 +679,7 @@ func (ls *lockstep) step(t int) string {
 			}
 		}
 	}
+	ls.linearization(t, wasGet, wasClear, before, after, ev.rets)
 	for _, id := range ls.negPanic {
 		if !ls.excl {
 			ls.monitor += fmt.Sprintf(" MONITOR:negative-streams-inuse-panic-in-Clear-%d", id)
@@ -678,13 +750,17 @@ func runConcX(proto, k int, pre []string, scripts [][]string, sched []int, choos
 	}
 	ls = &lockstep{g: g, k: k, resume: make([]chan struct{}, k), events: make(chan event), rets: make([][]string, k),
 		done: make([]bool, k), mine: make([][]int, k), held: map[int]bool{}, getFree: make([][]uint64, k), gids: map[uint64]int{},
-		got: map[int]int{}, rel: map[int]int{}, w0: wordsNow(g), at: make([]int, k), curClear: make([]int, k), pendAcq: make([]int, k),
+		got: map[int]int{}, rel: map[int]int{}, w0: wordsNow(g), at: make([]int, k), curClear: make([]int, k), pendAcq: make([]int, k), lpAcq: make([]int, k), lpRel: make([]bool, k),
 		inGet: make([]bool, k), nsteps: make([]int, k)}
 	ls.cur = append([]uint64{}, ls.w0...)
 	ls.nw = len(ls.w0)
+	ls.capN = capOf(proto)
+	if 64*ls.nw != ls.capN {
+		ls.monitor += fmt.Sprintf(" MONITOR:protocol-%d-bitset-of-%d-ids-instead-of-%d", proto, 64*ls.nw, ls.capN)
+	}
 	for t := 0; t < k; t++ {
 		ls.resume[t] = make(chan struct{})
-		ls.curClear[t], ls.pendAcq[t] = -1, -1
+		ls.curClear[t], ls.pendAcq[t], ls.lpAcq[t] = -1, -1, -1
 	}
 	for _, w := range pre {
 		if w == "c0" {
@@ -809,9 +885,13 @@ func runConcX(proto, k int, pre []string, scripts [][]string, sched []int, choos
 				break
 			}
 		}
-		// (2) Available() = number of zero bits of the bitset
+		// (2) Available() = number of zero bits of the bitset = number of free ids among 0..cap-1, cap = the
+		// capacity of the protocol version
 		zeros := 0
-		for _, v := range wEnd {
+		for w, v := range wEnd {
+			if 64*w >= ls.capN {
+				break
+			}
 			for j := 0; j < 64; j++ {
 				if v>>uint(j)&1 == 0 {
 					zeros++
@@ -829,7 +909,7 @@ func runConcX(proto, k int, pre []string, scripts [][]string, sched []int, choos
 	}
 	if ls.protocol { // additionally, under the client protocol: held ids = set bits, no panic at all
 		if !ls.unquiet {
-			if want := fmt.Sprintf("a=%d", g.NumStreams()-1-len(ls.held)); want != doAvail(g) {
+			if want := fmt.Sprintf("a=%d", ls.capN-1-len(ls.held)); want != doAvail(g) {
 				ls.monitor += " MONITOR:available-" + doAvail(g) + "-but-held-" + want
 			}
 			if len(ls.held) != len(idsInUse(g)) {
@@ -1035,6 +1115,16 @@ func genSeq(r *vh.Rng, out *vh.Out) {
 				ops = append(ops, fmt.Sprintf("c%d", id))
 				seqTok(g, ops[len(ops)-1])
 			}
+		case x < 80 && r.Intn(4) == 0: // negative argument: Clear(-k), k = 1..63 (word 0, empty mask), 64.., far below
+			k := 1 + r.Intn(63)
+			switch r.Intn(4) {
+			case 0:
+				k = 64 + r.Intn(130)
+			case 1:
+				k = []int{1, 63, 64, 65, 127, 128, 129, 32767, 32768, 100000}[r.Intn(10)]
+			}
+			ops = append(ops, fmt.Sprintf("n%d", k))
+			seqTok(g, ops[len(ops)-1])
 		case x < 80: // arbitrary id (possibly free, reserved or out of range)
 			var id int
 			switch r.Intn(5) {
@@ -1081,9 +1171,9 @@ func shuffle(r *vh.Rng, a []int) {
 // number of ids in use of a word, first / last word, id 1, id cap-1, whole words, runs, random subsets; double
 // releases, releases of free and out-of-range ids), refill (exactly / beyond / partly), repeat.
 func genSmon(r *vh.Rng, out *vh.Out) {
-	proto := []int{1, 2, 2, 2, 2, 2, 3, 4}[r.Intn(8)]
+	proto := []int{1, 2, 2, 1, 2, 2, 3, 4, 5}[r.Intn(9)]
 	if proto > 2 && (r.Intn(bigSmonOneIn) != 0 || bigSmonBudget == 0) {
-		proto = 2
+		proto = 1 + r.Intn(2)
 	}
 	if proto > 2 {
 		bigSmonBudget--
@@ -1228,9 +1318,9 @@ func genSmon(r *vh.Rng, out *vh.Out) {
 // genConcRace: racing releases of ONE id by 2..3 goroutines (double release), together with acquisitions and
 // other releases, on generators with few or many ids in use.
 func genConcRace(r *vh.Rng, out *vh.Out) {
-	proto := 2
+	proto := 1 + r.Intn(2) // both protocol versions of the small capacity
 	if r.Intn(10) == 0 {
-		proto = 3
+		proto = 3 + r.Intn(3) // every protocol version of the large capacity
 	}
 	var pre []string
 	var inUse []int
@@ -1385,9 +1475,9 @@ func genSchedule(r *vh.Rng, k, n int) []int {
 }
 
 func genConc(r *vh.Rng, out *vh.Out) {
-	proto := 2
+	proto := 1 + r.Intn(2) // both protocol versions of the small capacity
 	if r.Intn(8) == 0 {
-		proto = 3
+		proto = 3 + r.Intn(3) // every protocol version of the large capacity
 	}
 	k := 2 + r.Intn(3)
 	pre, inUse := genPrefill(r, proto)
@@ -1555,6 +1645,95 @@ func windowChoose(pauses []pause, r *vh.Rng) func(ls *lockstep, en []int) int {
 var clearYields = []int{8, 9, 11}
 var getYields = []int{1, 2, 4, 5, 7}
 
+// crossChoose: first the pauses, in order (as windowChoose); then the threads run in the order `order`: each to
+// completion one after the other, or (zip) one atomic operation each in turn; threads not named finish last.
+func crossChoose(pauses []pause, order []int, zip bool) func(ls *lockstep, en []int) int {
+	inner := windowChoose(pauses, nil)
+	reached := false
+	turn := 0
+	return func(ls *lockstep, en []int) int {
+		enabled := map[int]bool{}
+		for _, t := range en {
+			enabled[t] = true
+		}
+		if !reached {
+			t := inner(ls, en)
+			allReached := true
+			for _, p := range pauses {
+				if enabled[p.t] && ls.at[p.t] != p.y {
+					allReached = false
+				}
+			}
+			if !allReached {
+				return t
+			}
+			reached = true
+		}
+		if zip {
+			for n := 0; n < len(order); n++ {
+				t := order[(turn+n)%len(order)]
+				if enabled[t] {
+					turn = (turn + n + 1) % len(order)
+					return t
+				}
+			}
+		} else {
+			for _, t := range order {
+				if enabled[t] {
+					return t
+				}
+			}
+		}
+		return en[0]
+	}
+}
+
+// fixedCross (every run, both capacities): a Clear(x) and a GetStream working on the SAME word, BOTH paused, in
+// front of every pair of their atomic operations (Clear: load / CAS / decrement; GetStream: offset load / offset
+// CAS / word load / word CAS / increment), then resumed in both orders and alternating one atomic operation each
+// (so that each CAS is also seen failing and retrying: yields 10 and 6). Free id below / above x in the word, no
+// other free id, free id in the other word; with a third goroutine releasing x a second time (no client protocol)
+// or acquiring as well.
+func fixedCross(out *vh.Out) {
+	type cfg struct {
+		proto int
+		pre   []string
+		x     int
+	}
+	cfgs := []cfg{
+		{2, []string{"G127", "c70"}, 100}, {1, []string{"G127", "c100"}, 70}, {2, []string{"G127", "c5"}, 40},
+		{1, []string{"G127"}, 64}, {2, []string{"G127"}, 127}, {1, []string{"G127"}, 1}, {2, []string{"G127", "c10"}, 100},
+		{2, []string{"G127", "c126", "c125"}, 127},
+		{3, []string{"G32767", "c16390"}, 16400}, {5, []string{"G32767"}, 32767},
+	}
+	orders := []struct {
+		o   []int
+		zip bool
+	}{{[]int{0, 1}, false}, {[]int{1, 0}, false}, {[]int{0, 1}, true}, {[]int{1, 0}, true}}
+	for ci, c := range cfgs {
+		cx := fmt.Sprintf("c%d", c.x)
+		for _, yc := range clearYields {
+			for _, yg := range getYields {
+				for oi, o := range orders {
+					if c.proto > 2 && oi >= 2 && (yc+yg)%2 == 0 {
+						continue
+					}
+					emitConcX(out, c.proto, 2, c.pre, [][]string{{cx, "a"}, {"g", "a"}}, nil,
+						crossChoose([]pause{{0, yc, 1}, {1, yg, 1}}, o.o, o.zip), "conc/cross", true)
+				}
+				if ci < 3 {
+					// a third goroutine inside the double window: a second release of x (racing double release, no
+					// client protocol), or a second acquisition
+					emitConcX(out, c.proto, 3, c.pre, [][]string{{cx}, {"g"}, {cx, "g"}}, nil,
+						crossChoose([]pause{{0, yc, 1}, {1, yg, 1}}, []int{2, 1, 0}, false), "conc/cross3", true)
+					emitConcX(out, c.proto, 3, c.pre, [][]string{{cx}, {"g"}, {"g", "a"}}, nil,
+						crossChoose([]pause{{0, yc, 1}, {1, yg, 1}}, []int{2, 0, 1}, false), "conc/cross3", true)
+				}
+			}
+		}
+	}
+}
+
 // fixedWindows (every run, both capacities): all ids handed out, one Clear(x) paused in front of each of its
 // atomic operations (load / CAS / decrement: in the last window the bit is clear and the counter still counts
 // the id), complete calls of another goroutine inside the window; the dual: one id free, a GetStream paused in
@@ -1604,15 +1783,42 @@ func fixedWindows(out *vh.Out) {
 	}
 }
 
+// fixedSweep (every run): ONE full 32768-id generator, a single hole in EVERY one of its 512 words one after the
+// other (bit position varying with the word: 64w + (7w+3)%64), ascending then a descending pass with another bit
+// position: release x, GetStream must hand out exactly x (spec: must succeed), the next one must fail; then two
+// holes in two different words at a time. Judged by the specification (smon) and compared id by id (seq).
+func fixedSweep(out *vh.Out) {
+	toks := []string{"G32767"}
+	for w := 0; w < 512; w++ {
+		x := 64*w + (7*w+3)%64
+		toks = append(toks, fmt.Sprintf("c%d", x), "g", "g")
+	}
+	for w := 511; w >= 0; w -= 3 {
+		x := 64*w + (11*w+63)%64
+		if x == 0 {
+			x = 1
+		}
+		toks = append(toks, fmt.Sprintf("c%d", x), "g", "g")
+	}
+	for w := 0; w+259 < 512; w += 37 {
+		toks = append(toks, fmt.Sprintf("c%d", 64*w+63), fmt.Sprintf("c%d", 64*(w+259)+1), "a", "g", "g", "g")
+	}
+	toks = append(toks, "a")
+	op := "smon 5 " + strings.Join(toks, " ")
+	emitCase(out, op, exec(op), "smon/sweep-every-word/32768", true)
+	op = "seq 4 " + strings.Join(toks, " ") + " s"
+	emitCase(out, op, exec(op), "seq/sweep-every-word/32768", true)
+}
+
 // genWindow: random members of the same family: (almost) full generator of either capacity, 1..2 goroutines
 // paused in front of a random atomic operation of a Clear(held id) / GetStream, the 1..2 other goroutines run
 // complete scripts inside the windows (sequentially or interleaved at random), then everything finishes.
 var bigWindowBudget = 12
 
 func genWindow(r *vh.Rng, out *vh.Out) {
-	proto := 2
+	proto := 1 + r.Intn(2) // both protocol versions of the small capacity
 	if r.Intn(10) == 0 && bigWindowBudget > 0 {
-		proto = 3
+		proto = 3 + r.Intn(3) // every protocol version of the large capacity
 		bigWindowBudget--
 	}
 	capN := capOf(proto)
@@ -1816,9 +2022,9 @@ var bigOffsetBudget = 2
 var bigOffsetFills = false
 
 func genOffset(r *vh.Rng, out *vh.Out) {
-	proto := 2
+	proto := 1 + r.Intn(2) // both protocol versions of the small capacity
 	if r.Intn(40) == 0 && bigOffsetBudget > 0 {
-		proto = 3
+		proto = 3 + r.Intn(3) // every protocol version of the large capacity
 		bigOffsetBudget--
 	}
 	capN := capOf(proto)
@@ -2082,6 +2288,11 @@ func main() {
 		"seq 2 g c0 g g a s",
 		"seq 2 c128 a",
 		"seq 2 c127 c64 c63 a s",
+		"seq 2 g n1 a s g a",
+		"seq 1 n1 a g a",
+		"seq 2 G5 n63 n64 n65 a s",
+		"seq 3 G70 n1 n2 n128 a g a",
+		"smon 2 g n1 a",
 	} {
 		emitCase(out, op, exec(op), "seq/fixed", true)
 	}
@@ -2141,7 +2352,9 @@ func main() {
 		emitCase(out, "mon "+op, verdict, "mon/fixed", true)
 	}
 	fixedWindows(out)
+	fixedCross(out)
 	fixedOffsets(out)
+	fixedSweep(out)
 	for i := 0; i < 1500*mult; i++ {
 		genSeq(r, out)
 	}
